@@ -36,6 +36,10 @@ def run(ctx):
     for i, b in enumerate(behs):
         steps = [st for st in b if st["a"] == "Load"]
         sc.append({"id": i + 1, "replay": 0, "mode": "gated" if i % 2 == 0 else "hammer", "steps": steps})
+    # reloads requested the way an operator does (the server's own configuration file rewritten, SIGHUP to the process), two
+    # SIGHUPs in a row: every reload that started a new generation must stop the old one and finish
+    for j, b in enumerate(behs[:2 if ctx.quick else 20]):
+        sc.append({"id": len(sc) + 1, "replay": 0, "mode": "sighup2", "steps": [st for st in b if st["a"] == "Load"]})
     chunk = 40
     relays = clients = 0
     for i in range(0, len(sc), chunk):
@@ -63,6 +67,6 @@ def replay(ctx, path):
     d = json.load(open(path))
     ev = d["replay"]["events"]
     steps = [{"a": "Load", "cfg": e["cfg"], "frn": [], "ok": True} for e in ev if e.get("ev") == "LoadStart"]
-    sc = [{"id": 1, "replay": 0, "mode": m, "steps": steps} for m in ("gated", "hammer")]
+    sc = [{"id": 1, "replay": 0, "mode": m, "steps": steps} for m in ("gated", "hammer", "sighup2")]
     tf = rl_common.run_harness(ctx, sc, "replay", run_re="TestVerifHandover")
     rl_common.judge(ctx, tf, "replay of " + os.path.basename(path), "C11", TEXT)
